@@ -557,3 +557,77 @@ def r13_7(ctx):
     from .c14 import reset_is_unconditional
 
     reset_is_unconditional(ctx)
+
+
+def extension_ownership(ctx):
+    """the attribute flags live in the extension object; a transform reports its own part only if no other transformer (a routine body's,
+    another compiler's) writes into the same object.  Rule: every store into an attribute that holds an extension is a fresh construction,
+    and it is the transformer's own (`self.<attr> = Ext(...)`); an extension is never handed from one object to another."""
+    idx = _get_idx(ctx)
+    ext_classes = {c for c, ci in idx.classes.items() if idx.resolve_method(c, "set_token_meta_data") and idx.resolve_method(c, "get_meta")}
+    ctx.need(ext_classes, "no class with set_token_meta_data and get_meta found")
+
+    def ctor_of(v):
+        return call_tail(v) if isinstance(v, ast.Call) else None
+
+    def is_fresh(v, depth=0):
+        """a constructor call, or a call of a function of the package every return of which is one"""
+        if isinstance(v, ast.IfExp):
+            return is_fresh(v.body, depth) and is_fresh(v.orelse, depth)
+        c = ctor_of(v)
+        if c is None or depth > 2:
+            return False
+        if c in idx.classes:
+            return True
+        cands = [f for f in idx.funcs.values() if f.name == c]
+        rets = [r.value for f in cands for r in ast.walk(f.node) if isinstance(r, ast.Return)]
+        return bool(cands) and bool(rets) and all(r is not None and is_fresh(r, depth + 1) for r in rets)
+
+    holders = set()
+    stores = []
+    for q, fi in idx.funcs.items():
+        for n in ast.walk(fi.node):
+            tv = []
+            if isinstance(n, ast.Assign):
+                tv = [(t, n.value) for t in n.targets]
+            elif isinstance(n, ast.AnnAssign) and n.value is not None:
+                tv = [(n.target, n.value)]
+            elif isinstance(n, ast.Call) and call_tail(n) == "setattr" and len(n.args) == 3 and isinstance(n.args[1], ast.Constant):
+                stores.append((fi, n, U(n.args[0]), n.args[1].value, n.args[2]))
+                continue
+            for t, v in tv:
+                for t_ in (t.elts if isinstance(t, ast.Tuple) else [t]):
+                    if isinstance(t_, ast.Attribute):
+                        stores.append((fi, n, U(t_.value), t_.attr, v))
+                        if ctor_of(v) in ext_classes:
+                            holders.add(t_.attr)
+    ctx.need(holders, "no attribute is ever given an extension object")
+    seen = 0
+    for fi, n, recv, attr, v in stores:
+        if attr not in holders:
+            continue
+        seen += 1
+        fresh = is_fresh(v)
+        own = recv == "self"
+        ctx.check(f"store into .{attr} in {fi.qual}: a fresh extension of the object's own", fresh and own, f"self.{attr} = <Extension>(...)", f"{recv}.{attr} = {U(v)[:60]}", idx.where(n, fi.path))
+    ctx.need(seen >= 1, "no store into an extension attribute seen")
+    # the extension's flags are written by the extension's own methods only (nobody reaches into another object's flags)
+    r13 = set(FLAGS) | {"preds_written"}
+    for q, fi in idx.funcs.items():
+        if fi.cls in ext_classes or any(fi.cls in idx.subclasses(e) for e in ext_classes if fi.cls):
+            continue
+        for n in ast.walk(fi.node):
+            ts = []
+            if isinstance(n, ast.Assign):
+                ts = n.targets
+            elif isinstance(n, (ast.AugAssign, ast.AnnAssign)):
+                ts = [n.target]
+            for t in ts:
+                if isinstance(t, ast.Attribute) and t.attr in r13 and isinstance(t.value, ast.Attribute) and t.value.attr in holders:
+                    ctx.check(f"{fi.qual} writes the flag {t.attr} of an extension from outside", False, "flags are written by the extension's own methods", U(n)[:80], idx.where(n, fi.path))
+    ctx.check("flags of an extension are written by its own methods only (scan done)", True, "scan", "scan", "rzilcompiler/")
+
+
+@rule("R13.8", "C13", "a transformer owns its extension: the object that collects the attribute flags is built fresh by its transformer and never handed to another one (a routine body compiled in between leaves no flags behind)", min_instances=2)
+def r13_8(ctx):
+    extension_ownership(ctx)
